@@ -308,7 +308,7 @@ impl DBM {
     ) -> Result<(), SqliteError> {
         let tx = self.get_mut_connection().transaction().unwrap();
         tx.execute(
-            "INSERT INTO appointment_receipts (locator, tower_id, start_block, user_signature, tower_signature) 
+            "INSERT OR REPLACE INTO appointment_receipts (locator, tower_id, start_block, user_signature, tower_signature) 
                 VALUES (?1, ?2, ?3, ?4, ?5)",
             params![
                 locator.to_vec(),
